@@ -4,7 +4,8 @@
    ladder of expressions.go), Lower/Ops.v (operator lowering of compiler.go), Lower/ListEq.v (generated list
    equality), Lower/ForLoop.v (counting-loop lowering).
    Status: prec_roundtrip FULL for the stated fragment; op lowering PARTIAL (one cell refuted: Byte durch
-   Kommazahl; ill-typed IR cells are C02's and appear as LReject), list equality REFUTED + partial;
+   Kommazahl; the formerly ill-typed Zahl/Byte cells are repaired in /repo and proved), unary/conversion/zwischen
+   FULL, list equality REFUTED + partial;
    counting loop FULL for Zahl/Byte counters over abstract body/end-value evaluators.
    Whole-program preservation (DESIGN stage 4) is not proved: it is covered by the correspondence runs only. *)
 From Coq Require Import ZArith List Bool Lia String.
@@ -20,13 +21,13 @@ Proof. exact prec_roundtrip. Qed.
 Print Assumptions C01_prec_roundtrip.
 
 (* (b) operator lowering: for every scalar binary operator, all operand types and ALL operand values:
-   if RefSem defines the result (no guard) then the emitted LLVM operation is either rejected by LLVM
-   (mixed-width operands, C02) or computes exactly RefSem's value - except Byte durch Kommazahl *)
+   if RefSem defines the result (no guard) then the emitted LLVM operation computes exactly RefSem's value -
+   except Byte durch Kommazahl (refuted below; the full statement is this one without the div_byte_komma
+   hypothesis and becomes provable once c01_fix_1 is applied and Ops.lower_div is re-synchronised) *)
 Theorem C01_op_lowering_correct_partial :
   forall (pow : Z -> Z -> Z) (log10 : Z -> Z) (op : binop) (a b v : value),
     wf a -> wf b -> scalar_binop op = true -> div_byte_komma op a b = false ->
     RefSem.bin_op pow log10 op a b = ROk v ->
-    Ops.lower_bin pow log10 op (repr a) (repr b) = LReject \/
     Ops.lower_bin pow log10 op (repr a) (repr b) = LOk (repr v).
 Proof. exact bin_lowering_correct. Qed.
 Print Assumptions C01_op_lowering_correct_partial.
@@ -36,25 +37,24 @@ Example C01_op_lowering_nonvacuous :
   RefSem.bin_op (fun _ _ => 0) (fun _ => 0) BMult (VZ (-7)) (VB 200) = ROk (VZ (-1400)).
 Proof. repeat split; try (unfold wf, min64, max64; lia); reflexivity. Qed.
 
-(* the excluded cell is wrong on the pinned tree: 200 als Byte durch 2,0 is computed from -56 *)
+(* the excluded cell is wrong on the current tree: 200 als Byte durch 2,0 is computed from -56 *)
 Theorem C01_op_lowering_div_byte_kommazahl_refuted :
   forall (pow : Z -> Z -> Z) (log10 : Z -> Z),
   exists a b v, wf a /\ wf b /\ RefSem.bin_op pow log10 BDiv a b = ROk v /\
-                Ops.lower_bin pow log10 BDiv (repr a) (repr b) <> LOk (repr v) /\
-                Ops.lower_bin pow log10 BDiv (repr a) (repr b) <> LReject.
+                Ops.lower_bin pow log10 BDiv (repr a) (repr b) <> LOk (repr v).
 Proof. exact div_byte_komma_refuted. Qed.
 Print Assumptions C01_op_lowering_div_byte_kommazahl_refuted.
 
 Theorem C01_unary_lowering_correct :
   forall (op : unop) (a v : value),
-    wf a -> op <> ULen -> un_c02_cell op a = false ->
+    wf a -> op <> ULen ->
     RefSem.un_op op a = ROk v ->
     lower_un op (repr a) = LOk (repr v).
 Proof. exact un_lowering_correct. Qed.
 Print Assumptions C01_unary_lowering_correct.
 
 Example C01_unary_nonvacuous :
-  wf (VZ min64) /\ UAbs <> ULen /\ un_c02_cell UAbs (VZ min64) = false /\ RefSem.un_op UAbs (VZ min64) = ROk (VZ min64).
+  wf (VB 200) /\ UNeg <> ULen /\ RefSem.un_op UNeg (VB 200) = ROk (VZ (-200)).
 Proof. repeat split; try (unfold wf, min64, max64; lia); try discriminate; reflexivity. Qed.
 
 (* numeric conversions (`als` between scalar types = the implicit conversions of declarations/assignments) *)
